@@ -64,6 +64,8 @@ def gen_def(rng):
                 nf = adef.mk_field(FN[len(fields)], "uint", s, e)
                 fields.insert(rng.choice([0, fields.index(g), fields.index(g) + 1, len(fields)]), nf)
                 allow = rng.choice([None, None, False, True])
+        if rng.random() < 0.4:
+            rng.shuffle(fields)           # declaration order is free
         r = adef.mk_register(["Ra", "Rb", "Rc"][i], i, size, fields, byte_order=bo, bit_order=bi)
         if allow is not None:
             r["allow_bit_overlap"] = allow
@@ -119,6 +121,18 @@ def run_gen_phase(ctx):
         fixed.append({"config": adef.mk_config(register_address_type="u16"), "objects": objs})
     if ctx.tier == "quick":
         fixed = fixed[ctx.seed % 2::2]          # half of the family per quick run (the thorough tier runs all of it)
+    # two fields that share bits with a third, disjoint one between / before / after them, in EVERY declaration order: the
+    # order in which fields are written down is free, and sharing bits is sharing bits in each of them (seed C02-8: an
+    # overlap test that only looked back when a field started below the END OF THE PREVIOUSLY DECLARED one)
+    import itertools
+    trio = [("high", 8, 16), ("low", 0, 4), ("mid", 10, 12)]
+    for perm in itertools.permutations(trio):
+        fixed.append({"config": adef.mk_config(register_address_type="u16", default_byte_order="LE"), "objects": [
+            adef.mk_register("Ra", 0, 16, [adef.mk_field(n, "uint", a, b) for n, a, b in perm])]})
+    quad = [("code", 12, 24), ("ready", 0, 1), ("fault", 1, 2), ("busy", 13, 14)]
+    for perm in list(itertools.permutations(quad))[ctx.seed % 3::3]:
+        fixed.append({"config": adef.mk_config(register_address_type="u16", default_byte_order="BE"), "objects": [
+            adef.mk_register("Ra", 0, 24, [adef.mk_field(n, "uint", a, b) for n, a, b in perm])]})
     for i in range(nd + len(fixed)):
         d = fixed[i] if i < len(fixed) else gen_def(rng)
         cid = f"q{i}"
